@@ -5,6 +5,6 @@ CONSTANTS
   MaxTime = 6
   Injections = 2
   Dev_ExpiryWrongKey = FALSE
-  AsIs_ExpiryWrongKey = TRUE
+  AsIs_ExpiryWrongKey = FALSE
 INVARIANTS InvEmit
 CHECK_DEADLOCK FALSE
